@@ -691,6 +691,14 @@ def check_exports(chk, MX, tmp):
         R = rng.choice([5, 6, 8, 9, 12])
         close_te = rng.random() < 0.7
         sheared = it % 3 == 1
+        if it % 3 == 0:
+            # twist and dihedral both present on the first surface of every third aircraft (not left to the draw): the order of the two
+            # rotations of a section matters only then
+            for w in list(ac["wings"].values())[:1]:
+                if "quarter_chord_locs" not in w:
+                    w["twist"] = [[0.0, round(rng.uniform(2.0, 5.0), 2)], [1.0, -round(rng.uniform(1.0, 4.0), 2)]]
+                    w["dihedral"] = round(rng.uniform(8.0, 20.0), 1)
+                    chk.count("export:twist-and-dihedral")
         if sheared:
             # the documented export option "shear_dihedral" on every surface (wings with dihedral: the sections stay in planes y = const)
             for w in ac["wings"].values():
